@@ -10,7 +10,7 @@ try:
     src = '/repo/gtwrap/matlab_wrapper/matlab_wrapper.tpl'
     if os.path.exists(src):
         shutil.copy(src, os.path.join(repo, 'gtwrap/matlab_wrapper/matlab_wrapper.tpl'))
-    subprocess.check_call(['git', '-C', repo, 'apply', os.path.join(d, 'patch.diff')])
+    subprocess.check_call(['git', '-C', repo, 'apply', (os.path.join(d, 'patch_on_fixed_head.diff') if os.path.exists(os.path.join(d, 'patch_on_fixed_head.diff')) else os.path.join(d, 'patch.diff'))])
     env = dict(os.environ, VERIF_REPO=repo, PYTHONPATH=repo, VERIF_OUT=os.path.join(tmp, 'out'))
     res = {}
     for pid in pids:
